@@ -65,7 +65,7 @@ impl FakeState {
             // slices the error text must do it on a character boundary
             Some((_, _)) => {
                 let pad = if i % 2 == 0 { "" } else { "x" };
-                format!("F {pad}{} injected fault\n", "\u{e9}\u{20ac}".repeat(160)).into_bytes()
+                format!("F {pad}{} injected fault\n", "\u{e9}\u{20ac}".repeat(900)).into_bytes()
             }
             None => match self.table.get(line) {
                 Some(r) => r.clone(),
